@@ -285,4 +285,4 @@ def p_error(p):
     if p is None:
         raise ParserError('Syntax error: unexpected end of input')
 
-    raise ParserError(f'Syntax error: {p.value} at line {p.lexer.lineno}')
+    raise ParserError(f'Syntax error: {p.value} at line {p.lineno}')
